@@ -573,6 +573,14 @@ static struct query g_q;
 	(u).hostlen <= sizeof(struct sockaddr_storage) && (u).q.fromlen <= sizeof(struct sockaddr_storage) && (u).q_sendrealsoon.fromlen <= sizeof(struct sockaddr_storage) && \
 	((u).q.id2 == 0 || (u).q.fromlen2 <= sizeof(struct sockaddr_storage)) && ((u).q_sendrealsoon.id2 == 0 || (u).q_sendrealsoon.fromlen2 <= sizeof(struct sockaddr_storage)))
 
+/* the part of the invariant that speaks about the downstream stream state only: what the contract stubs of the stream
+ * helpers may ASSUME after choosing new values for exactly these fields (assuming the whole SESSION_WF there would silently
+ * discard every execution in which the function under proof had broken another part of the invariant before the call) */
+#define OUTSTREAM_WF(u) ((u).outpacket.len >= 0 && (u).outpacket.len <= (int)sizeof((u).outpacket.data) && (u).outpacket.offset >= 0 && (u).outpacket.offset <= (u).outpacket.len && \
+	(u).outpacket.sentlen >= 0 && (u).outpacket.sentlen <= (u).outpacket.len - (u).outpacket.offset && (u).outfragresent >= 0 && (u).outfragresent <= 7 && \
+	(u).outpacketq_filled >= 0 && (u).outpacketq_filled <= OUTPACKETQ_LEN && (u).outpacketq_nexttouse >= 0 && (u).outpacketq_nexttouse < OUTPACKETQ_LEN && \
+	(u).dnscache_lastfilled >= 0 && (u).dnscache_lastfilled < DNSCACHE_LEN && \
+	(u).qmemping_lastfilled >= 0 && (u).qmemping_lastfilled < QMEMPING_LEN && (u).qmemdata_lastfilled >= 0 && (u).qmemdata_lastfilled < QMEMDATA_LEN)
 static void any_server_state(void)
 {
 #ifdef VERIF_SHRUNK_TU
@@ -943,7 +951,7 @@ static void any_outstream(void)
 	slot.outpacket.fragment = (char)nondet_int(); slot.outpacket.seqno = (char)nondet_int(); slot.outfragresent = nondet_int();
 	slot.outpacketq_filled = nondet_int(); slot.outpacketq_nexttouse = nondet_int();
 	slot.dnscache_lastfilled = nondet_int(); slot.qmemping_lastfilled = nondet_int(); slot.qmemdata_lastfilled = nondet_int();
-	__CPROVER_assume(SESSION_WF(slot));
+	__CPROVER_assume(OUTSTREAM_WF(slot));
 }
 static void any_outstream_u1(void)
 {
@@ -952,7 +960,7 @@ static void any_outstream_u1(void)
 	users[1].outpacket.fragment = (char)nondet_int(); users[1].outpacket.seqno = (char)nondet_int(); users[1].outfragresent = nondet_int();
 	users[1].outpacketq_filled = nondet_int(); users[1].outpacketq_nexttouse = nondet_int();
 	users[1].dnscache_lastfilled = nondet_int(); users[1].qmemping_lastfilled = nondet_int(); users[1].qmemdata_lastfilled = nondet_int();
-	__CPROVER_assume(SESSION_WF(users[1]));
+	__CPROVER_assume(OUTSTREAM_WF(users[1]));
 #endif
 }
 int recent_seqno(int ourseqno, int gotseqno) { return nondet_bool(); }
